@@ -1,0 +1,130 @@
+//go:build verif
+
+package stackage
+
+/*
+verif_on.go is only compiled with the "verif" build tag. It exposes the
+otherwise hidden configuration of Stack and Condition instances to the
+external verification harness, and a hook variable that is invoked at the
+lock acquisition / release points. Nothing here alters package behaviour.
+*/
+
+import (
+	"reflect"
+)
+
+/*
+VerifHook, when non-nil, is invoked at named points ("lock.want",
+"lock.held", "lock.release", "lock.released") with the *stack concerned
+wrapped in a Stack. A blocking hook acts as a scheduler gate.
+*/
+var VerifHook func(point string, s Stack)
+
+func verifPoint(point string, r *stack) {
+	if h := VerifHook; h != nil {
+		h(point, Stack{r})
+	}
+}
+
+func verifFuncID(f any) string {
+	v := reflect.ValueOf(f)
+	if !v.IsValid() || v.IsNil() {
+		return ``
+	}
+	return sprintf("%x", v.Pointer())
+}
+
+func verifCfgDump(sc *nodeConfig) map[string]any {
+	m := map[string]any{}
+	if sc == nil {
+		m[`nilcfg`] = true
+		return m
+	}
+	m[`id`] = sc.id
+	m[`cat`] = sc.cat
+	m[`cap`] = sc.cap
+	m[`opt`] = int(sc.opt)
+	m[`typ`] = int(sc.typ)
+	m[`sym`] = sc.sym
+	m[`ljc`] = sc.ljc
+	m[`ord`] = sc.ord
+	m[`mtx`] = sc.mtx != nil
+	m[`ldr`] = sc.ldr != nil
+	enc := make([][]string, 0, len(sc.enc))
+	for _, e := range sc.enc {
+		enc = append(enc, append([]string{}, e...))
+	}
+	m[`enc`] = enc
+	if sc.err != nil {
+		m[`err`] = sc.err.Error()
+	} else {
+		m[`err`] = nil
+	}
+	m[`aux`] = sprintf("%p/%d", sc.aux, len(sc.aux))
+	m[`auxnil`] = sc.aux == nil
+	if sc.log != nil {
+		m[`lvl`] = int(sc.log.lvl)
+		m[`log`] = sprintf("%p", sc.log.log)
+	}
+	m[`evl`] = verifFuncID(sc.evl)
+	m[`ppf`] = verifFuncID(sc.ppf)
+	m[`vpf`] = verifFuncID(sc.vpf)
+	m[`rpf`] = verifFuncID(sc.rpf)
+	m[`eqf`] = verifFuncID(sc.eqf)
+	m[`lss`] = verifFuncID(sc.lss)
+	m[`umf`] = verifFuncID(sc.umf)
+	m[`maf`] = verifFuncID(sc.maf)
+	m[`mfn`] = verifFuncID(sc.mfn)
+	return m
+}
+
+/*
+VerifDump returns the raw internal state of a Stack or Condition (native
+instances only): the configuration record field by field, and -- for a
+Stack -- the number of raw slots, whether slot zero still is the
+configuration record, and the user slots themselves.
+*/
+func VerifDump(x any) map[string]any {
+	m := map[string]any{}
+	switch tv := x.(type) {
+	case Stack:
+		m[`type`] = `stack`
+		if tv.stack == nil {
+			m[`zero`] = true
+			return m
+		}
+		raw := *tv.stack
+		m[`rawlen`] = len(raw)
+		var sc *nodeConfig
+		if len(raw) > 0 {
+			sc, _ = raw[0].(*nodeConfig)
+		}
+		m[`slot0cfg`] = sc != nil
+		cfgs := 0
+		for i := 1; i < len(raw); i++ {
+			if _, is := raw[i].(*nodeConfig); is {
+				cfgs++
+			}
+		}
+		m[`cfgslots`] = cfgs
+		m[`cfg`] = verifCfgDump(sc)
+		if len(raw) > 1 {
+			m[`slots`] = append([]any{}, raw[1:]...)
+		} else {
+			m[`slots`] = []any{}
+		}
+	case Condition:
+		m[`type`] = `condition`
+		if tv.condition == nil {
+			m[`zero`] = true
+			return m
+		}
+		m[`cfg`] = verifCfgDump(tv.condition.cfg)
+		m[`kw`] = tv.condition.kw
+		m[`op`] = tv.condition.op
+		m[`ex`] = tv.condition.ex
+	default:
+		m[`type`] = `other`
+	}
+	return m
+}
